@@ -117,7 +117,8 @@ def check(case):
     if case.get("as_int16"):
         Xtrain = Xpred = X.astype(np.int16)  # the detector gets the narrow integers, the reference model the same numbers as floats
     with sut("SeededBinarySegmentation.fit/predict"):
-        det = K.build(K.detector_spec("SeededBinarySegmentation", params))
+        spec_ = K.detector_spec("SeededBinarySegmentation", params)
+        det = K.reconfigured(spec_, Xtrain) if history == "reconfigured" else K.build(spec_)
         if history == "scorer_prefit_wide" and not K.prefit_scorer_wide(det, Xtrain):
             history = None
         det.fit(Xtrain)
